@@ -1,7 +1,9 @@
 //! Kani harnesses for `ClientVisibility` (C08, part a) over the stand-in maps.
 //!
 //! Ghost model per entity: `now` = the most recent visibility setting, `last` = visibility at the
-//! last tick (what the client holds). A despawn resets the entity to the policy default.
+//! last tick (what the client holds). A despawn resets the entity to the policy default; if the
+//! client still holds an entity that is hidden at the moment of the despawn (so the server does
+//! not send a despawn for it directly), the entity must be reported as lost at the next tick.
 use super::*;
 
 const E: [Entity; 2] = [Entity::from_raw(0), Entity::from_raw(1)];
@@ -15,6 +17,7 @@ fn run_ops(whitelist: bool, ops: usize) {
     let default_visible = !whitelist;
     let mut now = [default_visible; 2];
     let mut last = [default_visible; 2];
+    let mut pending = [false; 2];
     let mut ticks = 0;
     let mut lost_seen = false;
     let mut gained_seen = false;
@@ -33,7 +36,11 @@ fn run_ops(whitelist: bool, ops: usize) {
             }
             2 => {
                 // The entity is despawned: its settings are forgotten.
+                // `collect_despawns` sends the despawn directly iff the entity is visible right now.
+                let told_directly = visibility.is_visible(E[idx]);
+                assert!(told_directly == now[idx]);
                 visibility.remove_despawned(E[idx]);
+                pending[idx] = pending[idx] || (last[idx] && !told_directly);
                 now[idx] = default_visible;
                 last[idx] = default_visible;
             }
@@ -49,7 +56,8 @@ fn run_ops(whitelist: bool, ops: usize) {
                 }
                 for i in 0..2 {
                     // Exactly the entities the client holds and that are hidden now are lost.
-                    assert!(lost[i] == (last[i] && !now[i]));
+                    assert!(lost[i] == ((last[i] && !now[i]) || pending[i]));
+                    pending[i] = false;
                     if lost[i] {
                         lost_seen = true;
                     }
@@ -77,6 +85,7 @@ fn run_ops(whitelist: bool, ops: usize) {
     }
     kani::cover!(lost_seen && gained_seen, "an entity was lost and one was gained");
     kani::cover!(ticks >= 2, "two ticks inside the window");
+    kani::cover!(ticks >= 1 && pending[0], "held entity hidden and then despawned before the tick");
     core::mem::forget(visibility);
 }
 
